@@ -82,6 +82,9 @@ type Sim struct {
 
 	SignedSat, RedeemedSat, LockedSat *big.Int
 
+	// B_s the harness submitted in requests that were refused (never signed)
+	RejectedBs []string
+
 	Log     []string
 	inAfter bool
 	NOps    int
@@ -344,8 +347,11 @@ func (s *Sim) Mint(q *MintQ, mode string) bool {
 			s.mismatch("mint", "accepted", "signed-more-than-quote-amount", fmt.Sprintf("signed %v for quote amount %d", sum, q.Amount))
 		}
 		s.recordSigs(spec.Outs, sigs, "mint")
-	} else if reason == "" && !menv.IsPanic(err) {
-		s.mismatch("mint", "rejected", "valid-request", err.Error())
+	} else {
+		s.noteRejected(spec.Outs)
+		if reason == "" && !menv.IsPanic(err) {
+			s.mismatch("mint", "rejected", "valid-request", err.Error())
+		}
 	}
 	s.done("mint")
 	return err == nil
@@ -357,6 +363,17 @@ func sigSum(sigs cashu.BlindedSignatures) *big.Int {
 		t.Add(t, u(sg.Amount))
 	}
 	return t
+}
+
+func (s *Sim) noteRejected(outs []client.Output) {
+	for _, o := range outs {
+		if _, signed := s.Sigs[o.B_]; !signed {
+			s.RejectedBs = append(s.RejectedBs, o.B_)
+		}
+	}
+	if len(s.RejectedBs) > 300 {
+		s.RejectedBs = s.RejectedBs[len(s.RejectedBs)-200:]
+	}
 }
 
 func errStr(err error) string {
@@ -473,8 +490,11 @@ func (s *Sim) Swap(in []*Coin, proofs cashu.Proofs, outMode, tamper string) bool
 			s.mismatch("swap", "accepted", "signed-more-than-inputs-minus-fee", fmt.Sprintf("signed %v for inputs %d fee %d", sum, total, fee))
 		}
 		s.recordSigs(spec.Outs, sigs, "swap")
-	} else if reason == "" && !menv.IsPanic(err) {
-		s.mismatch("swap", "rejected", "valid-request", err.Error())
+	} else {
+		s.noteRejected(spec.Outs)
+		if reason == "" && !menv.IsPanic(err) {
+			s.mismatch("swap", "rejected", "valid-request", err.Error())
+		}
 	}
 	s.done("swap")
 	return err == nil
@@ -669,6 +689,34 @@ func (s *Sim) adoptMeltState(q *MeltQ, st, preimage string) {
 		}
 		q.Inputs = nil
 	}
+}
+
+// AdoptTruth: when Lightning already knows the final outcome of the payment of a
+// PENDING quote, the next observation by the mint must adopt it; this moves the
+// model there (used before judging a poll / state check that involves the quote).
+func (s *Sim) AdoptTruth(q *MeltQ) {
+	if q.State != "PENDING" {
+		return
+	}
+	p := s.W.Payment(s.E.Name, q.Hash)
+	if p == nil {
+		return
+	}
+	switch p.State {
+	case lnmodel.Succeeded:
+		s.adoptMeltState(q, "PAID", p.Preimage)
+	case lnmodel.Failed:
+		s.adoptMeltState(q, "UNPAID", "")
+	}
+}
+
+func (s *Sim) MeltQuoteByID(id string) *MeltQ {
+	for _, q := range s.MeltQs {
+		if q.Id == id {
+			return q
+		}
+	}
+	return nil
 }
 
 // SyncPending re-reads the state of every PENDING melt quote (e.g. after a
